@@ -204,7 +204,7 @@ class Exec:
                 rec['observed'] = observe(proc)
             else:
                 rec['data'] = media.encode(bundle, self.capture)
-        except Exception as exc:  # noqa: BLE001 - whether saving may fail here is the oracle's business
+        except (Exception, asyncio.CancelledError) as exc:  # noqa: BLE001 - whether saving may fail here is the oracle's business
             rec['error'] = exc
         self.checkpoints.append(rec)
         return rec
